@@ -20,7 +20,7 @@ pub fn def() -> PropDef {
         id: "C12",
         level: "exploration",
         rule: "(a) cases = (sequence of 0-20 values, dialect, trivia string drawn over {space, tab, CR, LF, FF, ';...\\n'} at every boundary incl. a final comment without newline, source, iteration style in {next_value loop, value_iter, datum_iter, Iterator for Parser}); (b) metamorphic pairs: one token sequence joined with two independent trivia draws must give the same values; (c) cases = (arbitrary finite input, options, call history on one parser: random interleavings of next_value/next_datum/expect_end/value_iter().next()/datum_iter().next()/Iterator::next continuing after errors, up to 2*len+16 calls) judged for bounded item count, fuel, and span progress of successful items. both feature builds. non-trivial = one iteration or history judged; distinct = hash of (text, options, style or history seed)",
-        assumptions: &["trivia = the set named in the statement; one trivia piece is always present between two atoms (removing all separation is not 'changing trivia')", "an iterator that yields more than len+2 items for a len-byte input does not terminate"],
+        assumptions: &["trivia = the set named in the statement; one trivia piece is always present between two atoms, except next to a string literal, which is self-delimiting (removing all separation elsewhere is not 'changing trivia')", "an iterator that yields more than len+2 items for a len-byte input does not terminate"],
         nofast_too: true,
         min_quick: 200_000,
         min_thorough: 10_000_000,
